@@ -493,8 +493,14 @@ namespace BitSerializer::Convert::Detail
 		{
 			throw std::out_of_range("Target duration is not enough");
 		}
-		const int64_t days = era * 146097ll + (static_cast<int>(doe) - 719468);
-		const auto time = static_cast<long long>(utc.Hour) * 3600 + static_cast<long long>(utc.Min) * 60 + utc.Sec;
+		int64_t days = era * 146097ll + (static_cast<int>(doe) - 719468);
+		auto time = static_cast<long long>(utc.Hour) * 3600 + static_cast<long long>(utc.Min) * 60 + utc.Sec;
+		// Dates before epoch are represented as sum of negative parts (start of the first day in the range may be not representable)
+		if (days < 0)
+		{
+			++days;
+			time -= 86400;
+		}
 
 		std::chrono::time_point<TClock, TDuration> tp;
 		SafeAddDuration(tp, std::chrono::seconds(time));
